@@ -28,6 +28,7 @@ cd /repo
 [ -n "$(git status --porcelain)" ] && { echo "RESULT /repo not clean"; exit 2; }
 git apply "$dir/patch.diff" || exit 2
 "$VERIF_DIR/bin/build.sh" >/dev/null 2>&1
+export VERIF_EVIDENCE_DIR="$VERIF_DIR/build/seed-evidence"; mkdir -p "$VERIF_EVIDENCE_DIR"
 for id in $checks; do
   out=$("$(vbin "$id")" run "$id" quick 2>&1); rc=$?
   n=$(echo "$out" | grep -c '^VIOLATION')
